@@ -1,7 +1,7 @@
 """Matrix-utility rules: R-IDX-GUARD, R-DLINK, R-WORDGEOM, R-BITLOOP, R-PAIRSWAP."""
 from .ir import Terms, strip_casts, const_of, atoms_at, has_atom, show, ret_sources, loop_range, norm_atom
 from .effects import addr_root, ALLOCATORS
-from .rules_decode import is_field_load, L
+from .rules_decode import is_field_load, L, _V
 
 
 # ------------------------------------------------------------------ R-IDX-GUARD
@@ -229,6 +229,28 @@ def r_dlink(ctx, prog):
                     own.add(a[2])
                 if v == net and a[0] == 'field' and a[1] != net:
                     back.add(a[2])
+            # links made by a static helper that is handed the new entry (e.g. a "link into row" helper) count as made here
+            helper_calls = []
+            for c in f.calls():
+                g = prog.callee_fn(c)
+                if g is None or not g.internal or g.unit is not f.unit:
+                    continue
+                js = [j for j, a0 in enumerate(c.args) if tt.term(a0) == net]
+                if not js:
+                    continue
+                gt = Terms(g)
+                for j in js:
+                    for i2 in g.all_insts():
+                        if i2.op != 'store':
+                            continue
+                        a2 = gt.term(i2.ops[1])
+                        v2 = gt.term(i2.ops[0])
+                        if a2[0] == 'field' and a2[1] == ('param', j):
+                            own.add(a2[2])
+                            helper_calls.append(c)
+                        if v2 == ('param', j) and a2[0] == 'field' and a2[1] != ('param', j):
+                            back.add(a2[2])
+                            helper_calls.append(c)
             miss_own = set(['row', 'col', 'left', 'right', 'up', 'down']) - own
             miss_back = set(['left', 'right', 'up', 'down']) - back
             ctx.instance(R, not miss_own and not miss_back, ne, '%s:link' % f.name,
@@ -237,6 +259,7 @@ def r_dlink(ctx, prog):
             # returned on the success path only after all links are in place: each link store dominates the return of ne
             links = [i for i in f.all_insts() if i.op == 'store' and
                      ((tt.term(i.ops[1])[0] == 'field' and tt.term(i.ops[1])[1] == net) or tt.term(i.ops[0]) == net)]
+            links += helper_calls
             origins = [(f.bmap[ch[0][0]] if ch else r.block) for v, ch, r in ret_sources(f) if v is not None and tt.term(v) == net]
             if origins:
                 okd = all(all(f.dominates(s, o.term()) for s in links) for o in origins)
@@ -513,3 +536,90 @@ def r_dense_rowfill(ctx, prog):
 
 def _same_field(t, base, name):
     return t[0] in ('load', 'load@') and t[1][0] == 'field' and t[1][1] == base and t[1][2] == name
+
+
+# ------------------------------------------------------------------ R-SOLVER-RANGES
+def calls_in_loop(f, lp):
+    return [i for b in f.blocks if b.id in lp.blocks for i in b.insts if i.op == 'call']
+
+
+def r_solver_ranges(ctx, prog):
+    """Index ranges of the dense solver (Gaussian elimination with row exchange, back substitution).  Each is a necessary
+    condition of "returns the unique solution when the matrix has full column rank": a pivot search that skips row i or stops
+    before the last row misses pivots, an elimination that does not reach the last row leaves the column non-zero, a row XOR that
+    starts after the pivot's word loses bits, a back substitution that does not visit every later column drops terms."""
+    R = 'R-SOLVER-RANGES'
+    ctx.rule(R, 'dense solver: triangularisation visits columns 0..q-1; the pivot search of column i scans rows i..p-1 and fails only '
+             'when exhausted; elimination scans rows i+1..p-1; the row XOR covers words (i>>5)..n_words-1; back substitution visits '
+             'rows q-1..0 and, for row i, columns i+1..q-1', floor=1)
+    FE = prog.need_fn('of_linear_binary_code_col_forward_elimination', R)
+    TR = prog.need_fn('of_linear_binary_code_triangularize_dense_system', R)
+    BS = prog.need_fn('of_linear_binary_code_backward_substitution', R)
+
+    def fldload(base, name):
+        return lambda t: t[0] in ('load', 'load@') and t[1][0] == 'field' and t[1][1] == base and t[1][2] == name
+
+    def ranges(f):
+        tt = Terms(f)
+        out = []
+        for lp in f.loops.values():
+            lr = loop_range(f, lp, tt)
+            out.append((lp, lr))
+        return tt, out
+    def has_store(f, lp, direct_only=False):
+        return any(x.op == 'store' for b in f.blocks if b.id in lp.blocks for x in b.insts)
+
+    def role(f, rs, what, pred):
+        """the single loop of f playing a role (selected by structure, not by its range); its canonical range must exist"""
+        c = [(lp, lr) for lp, lr in rs if pred(lp)]
+        ctx.need(len(c) == 1, R, '%s: expected exactly one %s loop, found %d (solver restructured: cannot decide)' % (f.name, what, len(c)))
+        ctx.need(c[0][1] is not None, R, '%s: the %s loop has no canonical induction variable (cannot decide)' % (f.name, what))
+        return c[0]
+
+    def up(lr, start_ok, bound_ok):
+        return start_ok(lr.start) and lr.step == 1 and lr.pred in ('slt', 'ult') and bound_ok(lr.bound)
+    # --- triangularisation
+    tt, rs = ranges(TR)
+    lp, lr = role(TR, rs, 'column', lambda l: l.depth == 1)
+    calls = [c for c in calls_in_loop(TR, lp) if c.callee == FE.name]
+    ctx.need(calls, R, 'triangularisation does not call the forward elimination')
+    ok = up(lr, lambda t: t == ('const', 0), fldload(('param', 1), 'n_cols')) and \
+        tt.term(calls[0].args[3]) == tt.term(_V(lr.iv)) and tt.term(calls[0].args[1]) == ('param', 1)
+    ctx.instance(R, ok, lr.cmp, 'triangularize:columns', 'triangularisation does not run the forward elimination for every column 0..n_cols-1 in turn')
+    # --- forward elimination of column i = param 3
+    tt, rs = ranges(FE)
+    i = ('param', 3)
+    nrows = fldload(('param', 1), 'n_rows')
+    plp, plr = role(FE, rs, 'pivot-search (store-free)', lambda l: l.depth == 1 and not has_store(FE, l))
+    elp, elr = role(FE, rs, 'elimination (storing)', lambda l: l.depth == 1 and has_store(FE, l))
+    ctx.instance(R, up(plr, lambda t: t == i, nrows), plr.cmp, 'forward:pivot-search',
+                 'the pivot search of column i does not scan the rows i..n_rows-1 (found: from %s while %s %s)' % (show(plr.start), plr.pred, show(plr.bound)))
+    ctx.instance(R, up(elr, lambda t: t == ('bin', 'add', i, ('const', 1)), nrows), elr.cmp, 'forward:elimination',
+                 'the elimination of column i does not scan the rows i+1..n_rows-1 (found: from %s while %s %s)' % (show(elr.start), elr.pred, show(elr.bound)))
+    # failure only when the search is exhausted: the 0-returning origin is guarded by j == rows (or j >= rows)
+    okf = False
+    n0 = 0
+    for v, chain, r in ret_sources(FE):
+        if const_of(v) == 0:
+            n0 += 1
+            src = FE.bmap[chain[0][0]] if chain else r.block
+            atoms = [norm_atom(a) for a in atoms_at(FE, tt, src)]
+            okf = any(a[0] == 'cmp' and a[1] in ('eq', 'sge', 'uge') and nrows(a[3]) and a[2][0] == 'phi' for a in atoms)
+    ctx.need(n0 >= 1, R, 'forward elimination has no failure return')
+    ctx.instance(R, n0 == 1 and okf, FE, 'forward:fail-iff-exhausted',
+                 'the forward elimination reports failure on a path that is not "pivot search reached the last row without a hit"')
+    xlp, xlr = role(FE, rs, 'row-XOR', lambda l: l.parent is elp)
+    okx = up(xlr, lambda t: t in (('bin', 'ashr', i, ('const', 5)), ('bin', 'lshr', i, ('const', 5)), ('const', 0)), fldload(('param', 1), 'n_words'))
+    ctx.instance(R, okx, xlr.cmp, 'forward:xor-words', 'the row XOR does not cover the words from the pivot\'s word (i >> 5, or 0) to n_words-1')
+    # --- back substitution
+    tt, rs = ranges(BS)
+    ncols = fldload(('param', 1), 'n_cols')
+    olp, olr = role(BS, rs, 'row', lambda l: l.depth == 1)
+    oko = olr.step == -1 and olr.pred == 'sge' and olr.bound == ('const', 0) and olr.start[0] == 'bin' and olr.start[1] == 'sub' and \
+        ncols(olr.start[2]) and olr.start[3] == ('const', 1)
+    oko = oko or up(olr, lambda t: t == ('const', 0), ncols) and False
+    ctx.instance(R, oko, olr.cmp, 'backward:rows', 'back substitution does not visit the rows n_cols-1 down to 0')
+    ilp, ilr = role(BS, rs, 'column', lambda l: l.parent is olp)
+    iv = tt.term(_V(olr.iv))
+    ctx.instance(R, up(ilr, lambda t: t == ('bin', 'add', iv, ('const', 1)), ncols), ilr.cmp, 'backward:columns',
+                 'for row i the back substitution does not scan the columns i+1..n_cols-1')
